@@ -496,18 +496,16 @@ where
             (records, tree)
         };
 
-        let delete_ids =
-            records.iter().map(|r| *r.commit()).collect::<Vec<_>>();
+        let delete_count = records.len();
 
         // Delete from the database
         let log_type = self.log_type;
+        let id: i64 = (&self.owner).into();
         self.client
             .conn_mut(move |conn| {
                 let tx = conn.transaction()?;
                 let events = EventEntity::new(&tx);
-                for id in delete_ids {
-                    events.delete_one(log_type, &id)?;
-                }
+                events.delete_tail(log_type, id, delete_count)?;
                 tx.commit()?;
                 Ok(())
             })
